@@ -215,7 +215,8 @@ impl DebugSession {
                 json!({ "reason": "removed", "source": info.source }),
             )?;
         }
-        let thread_ids: Vec<i64> = self.thread_cache.keys().copied().collect();
+        // every cached thread is announced exited exactly once: the cache does not survive the process
+        let thread_ids: Vec<i64> = std::mem::take(&mut self.thread_cache).into_keys().collect();
         for thread_id in thread_ids {
             self.send_event_body(
                 "thread",
